@@ -225,11 +225,11 @@ func (p *wkbParser) parseLineString(ctype CoordinatesType) (LineString, error) {
 	if err != nil {
 		return LineString{}, err
 	}
-	floats := make([]float64, int(n)*ctype.Dimension())
-
-	if len(p.body) < 8*len(floats) {
+	numFloats := int(n) * ctype.Dimension()
+	if len(p.body) < 8*numFloats {
 		return LineString{}, wkbSyntaxError{"unexpected EOF"}
 	}
+	floats := make([]float64, numFloats)
 
 	var seqData []byte
 	if p.no {
@@ -274,6 +274,11 @@ func (p *wkbParser) parsePolygon(ctype CoordinatesType) (Polygon, error) {
 	if n == 0 {
 		return Polygon{}.ForceCoordinatesType(ctype), nil
 	}
+	if uint64(n) > uint64(len(p.body)) {
+		// Each element takes at least one byte, so the count cannot exceed
+		// what is left of the input (guards the allocation below).
+		return Polygon{}, wkbSyntaxError{"unexpected EOF"}
+	}
 	rings := make([]LineString, n)
 	for i := range rings {
 		rings[i], err = p.parseLineString(ctype)
@@ -291,6 +296,11 @@ func (p *wkbParser) parseMultiPoint(ctype CoordinatesType) (MultiPoint, error) {
 	}
 	if n == 0 {
 		return MultiPoint{}.ForceCoordinatesType(ctype), nil
+	}
+	if uint64(n) > uint64(len(p.body)) {
+		// Each element takes at least one byte, so the count cannot exceed
+		// what is left of the input (guards the allocation below).
+		return MultiPoint{}, wkbSyntaxError{"unexpected EOF"}
 	}
 	pts := make([]Point, n)
 	for i := uint32(0); i < n; i++ {
@@ -314,6 +324,11 @@ func (p *wkbParser) parseMultiLineString(ctype CoordinatesType) (MultiLineString
 	if n == 0 {
 		return MultiLineString{}.ForceCoordinatesType(ctype), nil
 	}
+	if uint64(n) > uint64(len(p.body)) {
+		// Each element takes at least one byte, so the count cannot exceed
+		// what is left of the input (guards the allocation below).
+		return MultiLineString{}, wkbSyntaxError{"unexpected EOF"}
+	}
 	lss := make([]LineString, n)
 	for i := uint32(0); i < n; i++ {
 		geom, err := p.inner()
@@ -336,6 +351,11 @@ func (p *wkbParser) parseMultiPolygon(ctype CoordinatesType) (MultiPolygon, erro
 	if n == 0 {
 		return MultiPolygon{}.ForceCoordinatesType(ctype), nil
 	}
+	if uint64(n) > uint64(len(p.body)) {
+		// Each element takes at least one byte, so the count cannot exceed
+		// what is left of the input (guards the allocation below).
+		return MultiPolygon{}, wkbSyntaxError{"unexpected EOF"}
+	}
 	polys := make([]Polygon, n)
 	for i := uint32(0); i < n; i++ {
 		geom, err := p.inner()
@@ -357,6 +377,11 @@ func (p *wkbParser) parseGeometryCollection(ctype CoordinatesType) (GeometryColl
 	}
 	if n == 0 {
 		return GeometryCollection{}.ForceCoordinatesType(ctype), nil
+	}
+	if uint64(n) > uint64(len(p.body)) {
+		// Each element takes at least one byte, so the count cannot exceed
+		// what is left of the input (guards the allocation below).
+		return GeometryCollection{}, wkbSyntaxError{"unexpected EOF"}
 	}
 	geoms := make([]Geometry, n)
 	for i := uint32(0); i < n; i++ {
